@@ -9,6 +9,12 @@ CHECKS = {
  'C01': ('property-based differential testing against a reference evaluator (proptest-driven choice sequences, pointer-identity locations), known-finding attribution by quirk model',
          'Random search: generated (document, query, spelling) triples are evaluated by the library through the public API and as a programmatic AST, and the multiset of selected locations (by address inside the caller\'s document) is compared with an independent RFC 9535 evaluator. Exploration only: it shows agreement on everything generated, within the stated size bounds.',
          'Trusted: the harness oracle (self-tested against the RFC example tables at every run), the generators\' size bounds (depth <= 4, width <= 4, <= 4 segments), serde_json.', 'DESIGN.md section 4 C01'),
+ 'C02': ('property-based differential testing against a reference evaluator: exact result sequence (order and multiplicity), breadth-first descendant order accepted as valid, known finding K1 attributed by quirk model',
+         'Random search biased to what makes order observable (multi-selector segments, several input nodes, negative steps, descendants, duplicates); the ordered list of selected locations (by address) must equal the reference evaluator\'s. A second generator excludes the open finding K1 by construction so that most of the budget searches with the strict oracle only. Exploration only.',
+         'Trusted: the harness oracle (self-tested on the RFC tables); serde_json sorted member order is the document order of a Value; size bounds as for C01.', 'DESIGN.md section 4 C02'),
+ 'C11': ('bounded-exhaustive enumeration plus property-based random cases against the RFC slice pseudo-code in 128-bit arithmetic',
+         'Every slice (start,end in absent/-10..10, step in absent/-4..4) and index on arrays of length 0..8 is enumerated completely, boundary values (+-(2^53-1), +-2^31, +-len+-1 ...) are placed in every position, non-array targets are swept, and random nested / large (<= 300) arrays are sampled; the ordered index sequence and the reported paths must equal the RFC pseudo-code. Exhaustive inside the stated boxes, exploration outside.',
+         'Trusted: slice_indices() (transcription of RFC 9535 2.3.4.2.2, self-tested on the RFC examples); termination judged by a 20 s watchdog around each library call.', 'DESIGN.md section 4 C11'),
 }
 NOT_YET = 'check under construction in this session (designed in DESIGN.md section 4); not yet registered'
 
